@@ -296,3 +296,216 @@ RULES = [
     ("C03.SIB", "instantiated command templates equal the language table; placeholder bindings", rule_sib),
     ("C03.AREA", "emitted comparison, label and ♡ pieces implement the branch and jump rules", rule_area),
 ]
+
+
+# ------------------------------------------------------------------------------------------------ emitted Stack
+def _stream(prn):
+    fl = "Num::floor(VALUE)"
+    ti = "BigNum::to_int(%s)" % fl
+    fu = "char::from_u32(%s)" % ti
+    fmt = "Arguments::new(Kb'\\xc0\\x00',array{Argument::new_display(%s)})"
+    return Alt(
+        Seq("BR[Num::is_pos(VALUE)]=1", fl, ti, fu, "%s(%s)" % (prn, fmt % ("UNWRAP(%s)" % fu)), "RET(K'()')"),
+        Seq("BR[Num::is_pos(VALUE)]=0", "%s(%s)" % (prn, fmt % "NEG(VALUE)"), "RET(K'()')"),
+    )
+
+
+def stack_specs():
+    R0 = "RET(K'()')"
+    specs = {}
+    # ---- Vec variant
+    L = "LT[IDX,Vec::len(SELF.data)]"
+    G, G0 = "IndexMut::index_mut(SELF.data,IDX)", "IndexMut::index_mut(SELF.data,K0)"
+    P, P0 = "Vec::pop(%s)" % G, "Vec::pop(%s)" % G0
+    refill = ("Stdin::read_line(stdio::stdin(),String::new())", "ITER(REV(CHARS(String::new())))")
+    specs["v1::Stack::pop"] = Alt(
+        Seq("EQ[IDX,K1]=1", "EXIT(K0)"),
+        Seq("EQ[IDX,K1]=0", "EQ[IDX,K2]=1", "EXIT(K1)"),
+        Seq("EQ[IDX,K1]=0", "EQ[IDX,K2]=0", Alt(
+            Seq(L + "=0", "RET(NAN)"),
+            Seq(L + "=1", G, P, Alt(
+                Seq("SW[DISCR(%s)]=1" % P, "RET(SOME(%s))" % P),
+                Seq("SW[DISCR(%s)]=0" % P, Alt(
+                    Seq("EQ[IDX,K0]=0", "RET(NAN)"),
+                    Seq("EQ[IDX,K0]=1", refill[0], refill[1], Star(G0, "COLLECT(%s,NUM(ELEM))" % G0), G0, P0, Alt(Seq("SW[DISCR(%s)]=1" % P0, "RET(SOME(%s))" % P0), Seq("SW[DISCR(%s)]=0" % P0, "RET(NAN)"))),
+                )),
+            )),
+        )),
+    )
+    I = "Index::index(SELF.data,IDX)"
+    EM = "BR[Vec::is_empty(%s)]" % I
+    store = Seq(G, "COLLECT(%s,VALUE)" % G, R0)
+    specs["v1::Stack::push"] = Alt(
+        Seq("EQ[IDX,K1]=1", _stream("stdio::_print")),
+        Seq("EQ[IDX,K1]=0", "EQ[IDX,K2]=1", _stream("stdio::_eprint")),
+        Seq("EQ[IDX,K1]=0", "EQ[IDX,K2]=0", Alt(
+            Seq(L + "=0", R0),
+            Seq(L + "=1", I, Alt(Seq(EM + "=0", store), Seq(EM + "=1", Alt(Seq("BR[Num::is_nan(VALUE)]=1", R0), Seq("BR[Num::is_nan(VALUE)]=0", store))))),
+        )),
+    )
+    # ---- HashMap variant
+    E = "HashMap::entry(SELF.data,IDX)"
+    O = "Entry::or_insert(%s,VEC)" % E
+    PO = "Vec::pop(%s)" % O
+    GM = "HashMap::get_mut(SELF.data,PROMOTED)"
+    U = "UNWRAP(%s)" % GM
+    PU = "Vec::pop(%s)" % U
+    specs["v0::Stack::pop"] = Alt(
+        Seq("EQ[IDX,K1]=1", "EXIT(K0)"),
+        Seq("EQ[IDX,K1]=0", "EQ[IDX,K2]=1", "EXIT(K1)"),
+        Seq("EQ[IDX,K1]=0", "EQ[IDX,K2]=0", E, O, PO, Alt(
+            Seq("SW[DISCR(%s)]=1" % PO, "RET(SOME(%s))" % PO),
+            Seq("SW[DISCR(%s)]=0" % PO, Alt(
+                Seq("EQ[IDX,K0]=0", "RET(NAN)"),
+                Seq("EQ[IDX,K0]=1", refill[0], refill[1], Star(GM, "COLLECT(%s,NUM(ELEM))" % U), GM, PU, Alt(Seq("SW[DISCR(%s)]=1" % PU, "RET(SOME(%s))" % PU), Seq("SW[DISCR(%s)]=0" % PU, "RET(NAN)"))),
+            )),
+        )),
+    )
+    EMo = "BR[Vec::is_empty(%s)]" % O
+    store0 = Seq("COLLECT(%s,VALUE)" % O, R0)
+    specs["v0::Stack::push"] = Alt(
+        Seq("EQ[IDX,K1]=1", _stream("stdio::_print")),
+        Seq("EQ[IDX,K1]=0", "EQ[IDX,K2]=1", _stream("stdio::_eprint")),
+        Seq("EQ[IDX,K1]=0", "EQ[IDX,K2]=0", E, O, Alt(Seq(EMo + "=0", store0), Seq(EMo + "=1", Alt(Seq("BR[Num::is_nan(VALUE)]=1", R0), Seq("BR[Num::is_nan(VALUE)]=0", store0))))),
+    )
+    return specs
+
+
+def rule_stack(ctx, R):
+    wfb, meta, err = wit(ctx)
+    if not R.anchor(err is None, "witness", "witness crate: " + (err or "")[:300]):
+        return
+    specs = stack_specs()
+    what = {
+        "pop": "emitted Stack::pop: exit 0/1 on stacks 1/2; out of range or empty -> NaN; stack 0 empty -> read one line, push its characters in reverse, pop (end of input -> NaN)",
+        "push": "emitted Stack::push: stacks 1/2 print (non-negative -> checked char of floor, else the negated number); otherwise store unless NaN onto an empty stack (and in range)",
+    }
+    for name, spec in sorted(specs.items()):
+        b = wfb.bodies.get(name)
+        if not R.anchor(b is not None, name, name):
+            continue
+        R.analyse(name)
+        roles = Roles(b, wfb, param_roles={1: "SELF", 2: "IDX", 3: "VALUE"})
+        ev = Events(b, wfb, roles=roles, extra_epsilon={"std::string::String::new"})
+        cfg = normal_cfg(b)
+        d = language(b, wfb, cfg, 0, cfg.returns + diverging_exits(b, wfb), ev, stop_at_exit=False)
+        p_c01.check_lang(R, "stack:%s" % name, "%s (%s variant)" % (what[name.rsplit("::", 1)[-1]], "Vec" if name.startswith("v1") else "HashMap"), d, spec, b.span)
+    # the initial selection and program counter of the emitted main
+    for v in ("v0", "v1"):
+        b = wfb.bodies.get("hvwitness::%s::skeleton" % v)
+        if not R.anchor(b is not None, v + "::skeleton", "emitted main skeleton"):
+            continue
+        inits = {}
+        for bi, blk in enumerate(b.blocks):
+            for s in blk["stmts"]:
+                if s["k"] == "assign" and not s["p"]["proj"] and s["p"]["l"] in b.local_names() and s["r"]["k"] == "use" and s["r"]["x"]["k"] == "const" and "int" in s["r"]["x"]:
+                    inits.setdefault(b.lname(s["p"]["l"]), int(s["r"]["x"]["int"]))
+        # by type/role: the usize locals initialised by the prelude: state = 0, cur = 3
+        vals = sorted(inits.values())
+        R.check(0 in vals and 3 in vals, "stack:%s:main_init" % v, "the emitted main starts at block 0 with stack 3 selected: %s" % inits, b.span)
+
+
+# ------------------------------------------------------------------------------------------------ units
+def rule_units(ctx, R):
+    fb = ctx.fb
+    b = fb.bodies.get(COMPILE + "build_source")
+    if not R.anchor(b is not None, "build_source", "compile::build_source"):
+        return
+    R.analyse(b.name)
+    org = Origins(b, fb)
+    vars_ = Vars(b)
+    cfg = normal_cfg(b)
+    # the blocks vector: Vec<Vec<T::CodeType>>
+    blocks = [l for l, d in enumerate(b.locals) if d["ty"].startswith("std::vec::Vec<std::vec::Vec<") and l in b.local_names()]
+    if not R.anchor(len(blocks) == 1, "blocks_vec", "the vector of blocks in build_source"):
+        return
+    BL = blocks[0]
+    roles = Roles(b, fb, param_roles={1: "STATE", 2: "CODE", 3: "LEVEL"}, overrides={BL: "BLOCKS"})
+    tpls = templates_of(b, fb, roles.org)
+
+    def find(pat):
+        return [t for t in tpls if pat in t.skeleton() and "struct Stack" not in t.skeleton()]
+
+    COUNT, IDX = "Vec::len(BLOCKS)", "(Vec::len(BLOCKS) Sub K1)"
+    # loop bound
+    for t in find("while state < "):
+        r = roles.of_origin(t.args[0])
+        R.check(r == COUNT, "units:while", "the emitted loop bound is the number of blocks: %s" % r, t.where)
+    # start block
+    for t in find("    state = "):
+        r = roles.of_origin(t.args[0])
+        R.check(r == IDX, "units:start", "the emitted start block is a block index (number of blocks - 1, the block that is open after grouping): %s" % r, t.where)
+        # emitted after the open block was normalised: every path from the grouping loop to this template passes the
+        # test `codes.last().is_empty()`
+        norm = []
+        for gb, blk in enumerate(b.blocks):
+            tt = blk["term"]
+            if tt["k"] == "switch" and tt["xty"] == "bool":
+                o = roles.of_origin(roles.org.of_operand(tt["x"], gb, "t"))
+                if "Vec::is_empty(UNWRAP([T]::last(BLOCKS)))" in o:
+                    norm.append(gb)
+        # the grouping loop over the pre-executed code: the loop containing the Index of the block_of / point rewrite
+        loops = {}
+        for be in cfg.back_edges():
+            loops.setdefault(be[1], set()).update(cfg.natural_loop(be))
+        pre_loops = [(h, bl) for h, bl in loops.items() if any(callee_name(b.blocks[x]["term"]["f"], fb) == "hyeong::core::state::State::get_all_code" for x in range(len(b.blocks)) if b.blocks[x]["term"]["k"] == "call" and reaches_without(cfg, [x], h) and not b.blocks[x]["cleanup"])]
+        grouping = None
+        for h, bl in loops.items():
+            # the loop whose iterator comes from get_all_code()
+            for x in bl:
+                tt = b.blocks[x]["term"]
+                if tt["k"] == "call" and callee_name(tt["f"], fb) == "core::iter::traits::iterator::Iterator::next" and "State::get_all_code" in roles.of_operand(tt["args"][0], x):
+                    grouping = (h, bl)
+        if R.anchor(grouping is not None and norm, "units:grouping_loop", "grouping loop over the pre-executed commands and the normalisation test of the open block"):
+            h, bl = grouping
+            exits = [sx for x in bl for sx in cfg.succ[x] if sx not in bl]
+            after = [n for n in norm if n not in bl]
+            ok = bool(after) and not any(reaches_without(cfg, [e], t.block, cut_blocks=after) for e in exits)
+            R.check(ok, "units:start_after_normalise", "the start block is emitted after the open block was normalised (an empty block opened when the last pre-executed command carries an area)", t.where)
+    # pending ♡ target
+    for t in find("Some("):
+        r = roles.of_origin(t.args[0])
+        m = re.fullmatch(r"Index::index\((.*),LATESTLOC\)", r)
+        ok = False
+        if m:
+            # the table: a Vec<usize> all of whose pushes are block indices
+            tab = [l for l, d in enumerate(b.locals) if d["ty"] == "std::vec::Vec<usize>" and l in b.local_names()]
+            pushes = []
+            for bi, tt in b.calls():
+                if callee_name(tt["f"], fb) == "std::vec::Vec::push" and vars_.root_key(tt["args"][0]) in [("L", x) for x in tab]:
+                    pushes.append(roles.of_operand(tt["args"][1], bi))
+            ok = len(pushes) >= 2 and all(p == IDX for p in pushes)
+            R.check(ok, "units:last:table", "the command -> block table records, for every pre-executed command, the index of the block it was put in: %s" % pushes, t.where)
+        R.check(bool(m), "units:last", "the pending ♡ target is emitted as a block index looked up in the command -> block table, not as the interpreter's command index: %s" % r[:90], t.where)
+    # label table
+    for t in find("point.insert("):
+        rs = [roles.of_origin(a) for a in t.args]
+        R.check(rs[1].endswith(".1") and "State::get_all_point" in rs[1], "units:point:source", "emitted label targets come from the label table's entries: %s" % rs, t.where)
+    # every label target is rewritten to a block index inside the grouping loop
+    rew = []
+    for bi, blk in enumerate(b.blocks):
+        for si, s in enumerate(blk["stmts"]):
+            if s["k"] == "assign" and s["p"]["proj"] and any(isinstance(e, dict) and e.get("n") == "1" for e in s["p"]["proj"]):
+                val = roles.of_origin(roles.org.of_rvalue(s["r"], bi, si))
+                rew.append((val, s["span"]["at"]))
+    R.check(len(rew) == 1 and rew[0][0] == IDX, "units:point:rewrite", "label targets (command indices) are rewritten to the index of the block that holds the command: %s" % rew)
+    # the restored selection
+    for t in find("cur = "):
+        r = roles.of_origin(t.args[0])
+        R.check(r == "CUR", "units:cur", "the restored selected stack is the pre-executed state's current stack: %s" % r, t.where)
+    # restored stacks: index and contents of the same stack
+    for t in find("stack.data["):
+        rs = [roles.of_origin(a) for a in t.args]
+        m0 = rs[0]
+        ok = m0.startswith("ELEM<State::get_all_stack_index(STATE)>") and rs[1] == "compile::vec_to_str(State::get_stack(STATE,%s))" % m0
+        R.check(ok, "units:restore", "each restored stack is written to its own index: %s" % [x[:80] for x in rs], t.where)
+        R.check("Num::from_string(x.to_string())" in t.skeleton(), "units:restore_reader", "restored values are read back with Num::from_string (the inverse of the writer, C09)", t.where)
+    R.floor("control_templates", len(find("while state < ")) + len(find("    state = ")) + len(find("Some(")) + len(find("point.insert(")), 4, "templates that emit control targets")
+
+
+RULES += [
+    ("C03.STACK", "emitted Stack::pop / Stack::push in both prelude variants have the compiled form of the I/O and NaN rules", rule_stack),
+    ("C03.UNITS", "every emitted control target is a block index; the loop bound is the block count", rule_units),
+    ("C03.CODEC", "restored stack values are embedded as quoted Display text and read back by its inverse", p_c09.rule_embed),
+    ("C03.CODEC2", "Num::from_string inverts Display for every shape", p_c09.rule_num_codec),
+]
